@@ -63,7 +63,10 @@ impl Polytope {
                         "Found optimal point {} with value {} !< {}",
                         &point, val, bound
                     );
-                    if val <= bound + f64::EPSILON {
+                    // the tolerance is relative to the size of the row: with an absolute one every row whose
+                    // coefficients are below machine epsilon would count as redundant
+                    let norm = costs.iter().map(|x| x * x).sum::<f64>().sqrt();
+                    if val <= bound + f64::EPSILON * norm.min(1.) {
                         debug!("Constraint is redundant");
                         redundant.push(idx);
                     }
